@@ -2249,7 +2249,7 @@ class Analyzer:
                         "signed division overflow: dividend %s may be the type minimum while divisor %s may be -1" % (self.vs(a), self.vs(b)), None)
             return [(t["target"], st)]
         if ak == "overflow:Sub" and self.s9_unsigned and len(t.get("ops", ())) == 2:
-            # opt-in (debug-build semantics): an unsigned subtraction must not go below zero.  Nothing is assumed afterwards.
+            # (debug-build semantics): an unsigned subtraction must not go below zero.
             ta = self.op_type(t["ops"][0])
             r = self.ty_range(ta) if ta is not None else None
             if r is not None and r[0] == 0:
@@ -2261,6 +2261,21 @@ class Analyzer:
                     self.oblige(bi, "S9u", ok, "D2" if ok else None, self.describe(t), t,
                                 "unsigned subtraction %s - %s may go below zero (panics in a build with overflow checks)" % (self.vs(a), self.vs(b)),
                                 None if ok else self.conj_lift(un))
+                    # the site is an obligation of its own (proven, lifted to the callers, or reported): what follows may rely on it,
+                    # exactly as what follows `v[i]` relies on i < len
+                    self.conj_assume(st, cons)
+                    if st.bottom:
+                        return []
+                    # ... and the difference itself, computed before the check with wrap-around in mind, is now exact
+                    cpj = t["cond"].get("move") or t["cond"].get("copy")
+                    if cpj is not None and cpj.get("p") and len(cpj["p"]) == 1 and cpj["p"][0] != "*" and cpj["p"][0][0] == "f" and cpj["p"][0][1] == 1:
+                        c = self.canon(st, {"l": cpj["l"]})
+                        if c is not None and not c[1]:
+                            val = self.binop(st, "Sub", a, ta, b, ta, ta)
+                            if val[0] in ("sum", "diff", "rem"):
+                                st.sym[(c[0], ("0",))] = ("pending", val)
+                            elif val[0] != "top":
+                                st.sym[(c[0], ("0",))] = val
                     return [(t["target"], st)]
         if ak.startswith("overflow"):
             # release semantics: the check does not exist; nothing may be assumed from it
